@@ -361,3 +361,30 @@ def declare(reg):
     for pid in ("C01", "C04"):
         reg.properties.setdefault(pid, {}).setdefault("bounded", []).append(
             {"name": "dispatch-or-pend", "module": "harness.notify", "func": "Dispatch"})
+
+    # ---- copy(): the message-set expansion only (C15 e) ----------------------------------
+    reg.contract(
+        P, "Mailbox.copy", uses_invariant=True,
+        params={"self": "ref:Mailbox", "msg_set": "list[MsgElt]", "dst_mbox": "ref:Mailbox", "uid_command": "bool",
+                "imap_cmd": "opt[ref:IMAPClientCommand]"},
+        requires={"wf": "wf_msgset(msg_set)", "non-empty": "len(self.msg_keys) > 0"},
+        raises={"Bad": None, "MailboxInconsistency": None},
+        modifies=["IMAPClientCommand.completed"],
+        loops={0: {"invariant": {
+            "mapped": "forall(lambda n: (n in msg_idxs) == (1 <= n and n <= len(self.uids) and self.uids[n - 1] in uid_list and pos(uid_list, self.uids[n - 1]) < _i))",
+        }}},
+        locals_={"msg_idxs": "list[int]", "copy_msgs": "list[tuple[str,list[str],float]]"},
+        ghost={
+            "cut": {"before_assign": "src_uids", "asserts": {
+                # the private expansion in copy() denotes the same messages as every other command (C15 e)
+                "uid-denote": "implies(uid_command, forall(lambda n: (n in msg_idxs) == (1 <= n and n <= len(self.uids) and denotes(msg_set, uid_max(self), self.uids[n - 1]))))",
+                "seq-denote": "implies(not uid_command, forall(lambda n: (n in msg_idxs) == denotes(msg_set, self.num_msgs, n)))",
+            }},
+            "harness": "harness.e2e:CopyExpansion",
+        },
+        props=["C15"],
+        note="verified up to the cut point (the message-set expansion); the copy itself is not under contract",
+    )
+    for pid in ("C15", "C05"):
+        reg.properties.setdefault(pid, {}).setdefault("bounded", []).append(
+            {"name": "copy-expansion-e2e", "module": "harness.e2e", "func": "CopyExpansion"})
